@@ -2,16 +2,21 @@
    proto.Equal said about them (as they are, and with change_time cleared in every Change), and for
    each comparer configuration the verdicts of the real comparer on (x,y), (y,x), (x,x), (y,y).
    A stream case carries a resource.Value configured with an equivalence, the seed, the written
-   values and what a backpressured Pull delivered.
+   values and what a backpressured Pull delivered; a collection case a whole resource.Collection
+   (several ids, adds / updates / deletes, WithInclude, WithUpdatesOnly) and every change delivered.
+   [KG g c] carries the guard as the generator computed it.
 
-   [agrees]: observation = model (Cmp.v / Logic.v / Tolerance.v with Go's arithmetic; Resource/Pull.v).
+   [agrees]: observation = model: Cmp.v / Logic.v (equator, And / Or), Tolerance.v (AsDuration, float32
+   ratio), FloatB64.v (FloatValueApprox on Flocq binary64), GoTime.v (time.Unix / Before / Sub / Add /
+   Equal as Go computes them), Resource/Pull.v (Value.Pull), CollEquiv.v (Collection.Pull with the
+   held map); and the generator's guard = C16_guard.
    [C16_ok]: the clauses of the property re-evaluated on the OBSERVED verdicts: agreement with the
    real proto.Equal, with the reference semantics of Spec.v (set-of-fields equality, tolerances in
    exact arithmetic), symmetry, reflexivity, And = conjunction / Or = disjunction of the observed
-   component verdicts, delivered iff not equivalent to the last delivered value.  It does not go
-   through the equator model. *)
+   component verdicts, delivered iff not equivalent to the value the subscriber holds.  It does not go
+   through the equator model.  JudgeProofs.judge_sound: agrees -> guard -> in_scope -> C16_ok. *)
 From Coq Require Import QArith Qabs Qminmax.
-From SC Require Import Base.Prelude Cmp.Cmp Cmp.Logic Cmp.Tolerance Cmp.Spec Resource.Impl Resource.Pull.
+From SC Require Import Base.Prelude Cmp.Cmp Cmp.Logic Cmp.Tolerance Cmp.FloatB64 Cmp.GoTime Cmp.Spec Resource.Impl Resource.Pull Cmp.CollEquiv.
 Open Scope Z_scope.
 
 Inductive vcfg := VFloat (fraction margin : Q) | VTime (d : Z) | VDur (d : Z) | VDurP (p : Q).
@@ -28,18 +33,34 @@ Inductive obs :=
 (* cmp.And / cmp.Or over Equal(...) comparers: the components' own verdicts and the combination's *)
 | OComb (is_or : bool) (es : list ecfg) (comps : list b4) (v : b4).
 
+(* one operation on a collection: [(id, Some v)] = Add (absent id) or Update (present id) storing v,
+   [(id, None)] = Delete of a present id *)
+Definition collop : Type := string * option cval.
+
 Inductive c16case :=
 | KPair (x y : option cval) (pe_raw pe_strip : bool * bool) (os : list obs)
 | KStream (e : ecfg) (seed : option cval) (writes : list cval) (emitted : list cval)
 (* a resource.Collection with an equivalence holding one item "a" = seed at subscription; the item is
    updated to each of [writes]; [emitted]: the new values of the changes delivered for "a" *)
-| KCollStream (e : ecfg) (seed : cval) (writes : list cval) (emitted : list cval).
+| KCollStream (e : ecfg) (seed : cval) (writes : list cval) (emitted : list cval)
+(* a resource.Collection with an equivalence holding [init] (sorted by id) at subscription, pulled with
+   WithUpdatesOnly([uo]) and, if [thr] is given, WithInclude(default_double >= thr); then [ops];
+   [emitted]: (id, old value, new value) of every change delivered, seeds included *)
+| KColl (e : ecfg) (uo : bool) (thr : option Q) (init : list (string * cval)) (ops : list collop)
+        (emitted : list (string * option cval * option cval))
+(* the same two kinds of history pulled WithReadPaths([paths]) (top-level field names): the equivalence
+   sees, and the subscriber holds, FILTERED values *)
+| KStreamM (paths : list string) (e : ecfg) (seed : option cval) (writes : list cval) (emitted : list cval)
+| KCollM (paths : list string) (e : ecfg) (uo : bool) (thr : option Q) (init : list (string * cval)) (ops : list collop)
+         (emitted : list (string * option cval * option cval))
+(* [g]: the guard as the generator computed it (so that the guard-pass rate it reports is the judge's) *)
+| KG (g : bool) (c : c16case).
 
 (* ---------- model ---------- *)
 Definition model_v (c : vcfg) : vcmp :=
   match c with
-  | VFloat fr mg => float_approx fr mg
-  | VTime d => time_within d
+  | VFloat fr mg => float_approx_b64 fr mg
+  | VTime d => time_within_fixed d
   | VDur d => duration_within d
   | VDurP p => duration_within_p p
   end.
@@ -63,10 +84,78 @@ Fixpoint chain_events (prev : cval) (ws : list cval) : list (cevent cval) :=
   | [] => []
   | w :: r => mkCE "a" 0 KUpdate (Some prev) (Some w) :: chain_events w r
   end.
+Definition plain_ro : ropts cval unit := mkR None false None.
+Definition id_filter (_ : unit) (m : cval) : cval := m.
 Definition coll_model (e : ecfg) (seed : cval) (writes : list cval) : list cval :=
   seed :: flat_map (fun c : cchange cval => match cc_new c with Some v => [v] | None => [] end)
-            (c_forward_gen (fun (_ : unit) (m : cval) => m) (Some (model_e e)) false false
-                           (mkR (rmask := unit) None false None) (chain_events seed writes)).
+            (c_forward_held id_filter (Some (model_e e)) plain_ro [("a"%string, Some seed)]
+                            (chain_events seed writes)).
+(* the code before /repo 3a50d70: old against new of each change *)
+Definition coll_model_v0 (e : ecfg) (seed : cval) (writes : list cval) : list cval :=
+  seed :: flat_map (fun c : cchange cval => match cc_new c with Some v => [v] | None => [] end)
+            (c_forward_gen id_filter (Some (model_e e)) false false plain_ro (chain_events seed writes)).
+
+(* ---- a whole collection: ops -> events, by the collection's current contents ---- *)
+Fixpoint alookup (id : string) (l : list (string * cval)) : option cval :=
+  match l with [] => None | (k, v) :: r => if String.eqb k id then Some v else alookup id r end.
+Fixpoint aset (id : string) (v : cval) (l : list (string * cval)) : list (string * cval) :=
+  match l with
+  | [] => [(id, v)]
+  | (k, x) :: r => if String.eqb k id then (id, v) :: r else (k, x) :: aset id v r
+  end.
+Fixpoint adel (id : string) (l : list (string * cval)) : list (string * cval) :=
+  match l with [] => [] | (k, x) :: r => if String.eqb k id then adel id r else (k, x) :: adel id r end.
+
+Fixpoint events_of (cur : list (string * cval)) (ops : list collop) : list (cevent cval) :=
+  match ops with
+  | [] => []
+  | (id, Some v) :: r =>
+      mkCE id 0 (match alookup id cur with Some _ => KUpdate | None => KAdd end) (alookup id cur) (Some v)
+      :: events_of (aset id v cur) r
+  | (id, None) :: r => mkCE id 0 KRemove (alookup id cur) None :: events_of (adel id cur) r
+  end.
+
+(* the harness's WithInclude predicate: the item's default_double >= thr (an unset field reads 0) *)
+Definition include_of (thr : Q) (_ : string) (v : option cval) : bool :=
+  match v with
+  | Some (CM _ _ fs _) =>
+      match flookup "default_double" fs with
+      | Some (CS (CF64 (FFin q))) => Qle_bool thr q
+      | Some (CS (CF64 (FInf neg))) => negb neg
+      | Some _ => false
+      | None => Qle_bool thr 0
+      end
+  | _ => false
+  end.
+Definition coll_ro (uo : bool) (thr : option Q) : ropts cval unit :=
+  mkR None uo (option_map include_of thr).
+Definition coll_state (init : list (string * cval)) : cstate cval :=
+  mkC (map (fun p : string * cval => (fst p, mkItem (snd p) 0)) init) 0.
+Definition triple_of (c : cchange cval) : string * option cval * option cval := (cc_id c, cc_old c, cc_new c).
+Definition coll_full_model (e : ecfg) (uo : bool) (thr : option Q) (init : list (string * cval)) (ops : list collop)
+  : list (string * option cval * option cval) :=
+  map triple_of (pull_collection_held id_filter (Some (model_e e)) (coll_state init) (coll_ro uo thr) (events_of init ops)).
+
+(* masks.ResponseFilter.FilterClone for a mask of top-level field names, on messages without unknown
+   fields: the listed populated fields are kept; an empty mask resets the message *)
+Definition path_filter (paths : list string) (m : cval) : cval :=
+  match m with
+  | CM ty v fs u =>
+      match paths with
+      | [] => CM ty v [] []
+      | _ => CM ty v (filter (fun kv : string * cval => existsb (String.eqb (fst kv)) paths) fs) u
+      end
+  | x => x
+  end.
+Definition pull_model_m (paths : list string) (e : ecfg) (seed : option cval) (writes : list cval) : list cval :=
+  map (@vc_value cval)
+      (pull_value path_filter (Some (model_e e))
+                  (mkV seed 0 0) (mkR (Some paths) false None)
+                  (map (fun w => mkVE w 0) writes)).
+Definition coll_full_model_m (paths : list string) (e : ecfg) (uo : bool) (thr : option Q) (init : list (string * cval))
+           (ops : list collop) : list (string * option cval * option cval) :=
+  map triple_of (pull_collection_held path_filter (Some (model_e e)) (coll_state init)
+                   (mkR (Some paths) uo (option_map include_of thr)) (events_of init ops)).
 
 Definition cvals_eqb (a b : list cval) : bool :=
   list_eqb (fun x y => spec_equal no_ign no_leaf x y && Bool.eqb (valid_of x) (valid_of y)) a b.
@@ -81,7 +170,17 @@ Definition agrees_obs (x y : option cval) (o : obs) : bool :=
 
 Definition bb_eqb (a b : bool * bool) : bool := Bool.eqb (fst a) (fst b) && Bool.eqb (snd a) (snd b).
 
-Definition agrees (c : c16case) : bool :=
+Definition ocval_eqb (a b : option cval) : bool :=
+  match a, b with
+  | Some x, Some y => spec_equal no_ign no_leaf x y && Bool.eqb (valid_of x) (valid_of y)
+  | None, None => true
+  | _, _ => false
+  end.
+Definition triple_eqb (a b : string * option cval * option cval) : bool :=
+  let '(ia, oa, na) := a in let '(ib, ob, nb) := b in
+  String.eqb ia ib && ocval_eqb oa ob && ocval_eqb na nb.
+
+Definition agrees_core (c : c16case) : bool :=
   match c with
   | KPair x y pr ps os =>
       bb_eqb pr (proto_equal x y, proto_equal y x)
@@ -89,6 +188,10 @@ Definition agrees (c : c16case) : bool :=
       && forallb (agrees_obs x y) os
   | KStream e seed writes emitted => cvals_eqb emitted (pull_model e seed writes)
   | KCollStream e seed writes emitted => cvals_eqb emitted (coll_model e seed writes)
+  | KColl e uo thr init ops emitted => list_eqb triple_eqb emitted (coll_full_model e uo thr init ops)
+  | KStreamM paths e seed writes emitted => cvals_eqb emitted (pull_model_m paths e seed writes)
+  | KCollM paths e uo thr init ops emitted => list_eqb triple_eqb emitted (coll_full_model_m paths e uo thr init ops)
+  | KG _ _ => false
   end.
 
 (* ---------- the property on the observation ---------- *)
@@ -140,21 +243,61 @@ Fixpoint ideal_stream (e : ecfg) (last : option cval) (writes : list cval) : lis
   | w :: r => if ideal_e e last (Some w) then ideal_stream e last r else w :: ideal_stream e (Some w) r
   end.
 
-Definition C16_ok (c : c16case) : bool :=
+(* a whole collection: what the reader sees of a value, and "delivered iff not equivalent (ideally) to
+   what the subscriber holds for that id" straight from the operations (no include/filter/held) *)
+Definition seen_val (thr : option Q) (id : string) (v : option cval) : option cval :=
+  match v with
+  | Some m => if match thr with Some t => include_of t id (Some m) | None => true end then Some m else None
+  | None => None
+  end.
+Fixpoint ideal_coll (e : ecfg) (thr : option Q) (view : list (string * cval)) (ops : list collop)
+  : list (string * option cval) :=
+  match ops with
+  | [] => []
+  | (id, nv) :: r =>
+      let sn := seen_val thr id nv in
+      if ideal_e e (alookup id view) sn then ideal_coll e thr view r
+      else (id, sn) :: ideal_coll e thr (match sn with Some v => aset id v view | None => adel id view end) r
+  end.
+(* with a read mask: inclusion is decided on the stored value, the subscriber sees the filtered one *)
+Fixpoint ideal_coll_m (f : cval -> cval) (e : ecfg) (thr : option Q) (view : list (string * cval)) (ops : list collop)
+  : list (string * option cval) :=
+  match ops with
+  | [] => []
+  | (id, nv) :: r =>
+      let sn := option_map f (seen_val thr id nv) in
+      if ideal_e e (alookup id view) sn then ideal_coll_m f e thr view r
+      else (id, sn) :: ideal_coll_m f e thr (match sn with Some v => aset id v view | None => adel id view end) r
+  end.
+Definition seen_init (thr : option Q) (init : list (string * cval)) : list (string * cval) :=
+  filter (fun p : string * cval => match seen_val thr (fst p) (Some (snd p)) with Some _ => true | None => false end) init.
+Definition pair_eqb (a b : string * option cval) : bool := String.eqb (fst a) (fst b) && ocval_eqb (snd a) (snd b).
+
+Definition ok_core (c : c16case) : bool :=
   match c with
   | KPair x y pr ps os => forallb (ok_obs x y ps) os
   | KStream e seed writes emitted =>
       cvals_eqb emitted (match seed with Some s => [s] | None => [] end ++ ideal_stream e seed writes)
   | KCollStream e seed writes emitted => cvals_eqb emitted (seed :: ideal_stream e (Some seed) writes)
+  | KColl e uo thr init ops emitted =>
+      list_eqb pair_eqb (map (fun t : string * option cval * option cval => (fst (fst t), snd t)) emitted)
+               ((if uo then [] else map (fun p : string * cval => (fst p, Some (snd p))) (seen_init thr init))
+                ++ ideal_coll e thr (seen_init thr init) ops)
+  | KStreamM paths e seed writes emitted =>
+      let f := path_filter paths in
+      cvals_eqb emitted (match seed with Some s => [f s] | None => [] end ++ ideal_stream e (option_map f seed) (map f writes))
+  | KCollM paths e uo thr init ops emitted =>
+      let f := path_filter paths in
+      let view := map (fun p : string * cval => (fst p, f (snd p))) (seen_init thr init) in
+      list_eqb pair_eqb (map (fun t : string * option cval * option cval => (fst (fst t), snd t)) emitted)
+               ((if uo then [] else map (fun p : string * cval => (fst p, Some (snd p))) view)
+                ++ ideal_coll_m f e thr view ops)
+  | KG _ _ => false
   end.
 
 (* ---------- guard: the hypotheses of the theorems and of the exact-arithmetic modelling ---------- *)
-Definition pow2 (p : positive) : bool := (Z.pos p =? 2 ^ Z.log2 (Z.pos p)).
-(* a small dyadic rational: every operation of FloatValueApprox on such values is exact in float64
-   (and the values are exact in float32) *)
-Definition small_dyadic (q : Q) : bool :=
-  pow2 (Qden q) && (Z.pos (Qden q) <=? 1024) && (Z.abs (Qnum q) <=? 1048576).
-Definition fl_small (a : fl) : bool := match a with FFin q => small_dyadic q | _ => true end.
+(* [small_dyadic], [fl_small]: Cmp/FloatB64.v (a small dyadic rational: every operation of FloatValueApprox on
+   such values is exact in float64, FloatB64Proofs.b64_approx_exact) *)
 Definition scalar_small (s : cscalar) : bool := match s with CF32 a | CF64 a => fl_small a | _ => true end.
 
 Definition sec_bound : Z := 1152921504606846976.   (* 2^60 *)
@@ -165,7 +308,8 @@ Fixpoint val_guard (top : bool) (x : cval) : bool :=
   | CS s => scalar_small s
   | CM ty v fs _ =>
       (top || v)
-      && (if String.eqb ty ts_full then Z.abs (get_int "seconds" fs) <=? sec_bound else true)
+      && (if String.eqb ty ts_full
+          then (Z.abs (get_int "seconds" fs) <=? sec_bound) && in32 (get_int "nanos" fs) else true)
       && forallb (fun kv : string * cval => let (_, a) := kv in val_guard false a) fs
   | CL l => forallb (val_guard false) l
   | CMap m => forallb (fun e : cscalar * cval => let (_, a) := e in val_guard false a) m
@@ -176,18 +320,28 @@ Definition opt_guard (x : option cval) : bool :=
 Definition vcfg_guard (c : vcfg) : bool :=
   match c with
   | VFloat fr mg => small_dyadic fr && small_dyadic mg && Qle_bool 0 fr && Qle_bool 0 mg
-  | VTime d | VDur d => (0 <=? d) && (d <? max_dur)
+  | VTime d | VDur d => (0 <=? d) && (d <=? max_dur)
   | VDurP p => small_dyadic p
   end.
 Definition ecfg_guard (e : ecfg) : bool := forallb vcfg_guard (cfg_vs e).
 Definition obs_guard (o : obs) : bool :=
   match o with OEq e _ => ecfg_guard e | OComb _ es _ _ => forallb ecfg_guard es end.
 
-Definition C16_guard (c : c16case) : bool :=
+Definition guard_core (c : c16case) : bool :=
   match c with
   | KPair x y _ _ os => opt_guard x && opt_guard y && forallb obs_guard os
   | KStream e seed writes _ => opt_guard seed && forallb (fun w => opt_guard (Some w)) writes && ecfg_guard e
   | KCollStream e seed writes _ => opt_guard (Some seed) && forallb (fun w => opt_guard (Some w)) writes && ecfg_guard e
+  | KColl e _ thr init ops _ =>
+      forallb (fun p : string * cval => opt_guard (Some (snd p))) init
+      && forallb (fun o : collop => opt_guard (snd o)) ops && ecfg_guard e
+      && match thr with Some t => small_dyadic t | None => true end
+  | KStreamM _ e seed writes _ => opt_guard seed && forallb (fun w => opt_guard (Some w)) writes && ecfg_guard e
+  | KCollM _ e _ thr init ops _ =>
+      forallb (fun p : string * cval => opt_guard (Some (snd p))) init
+      && forallb (fun o : collop => opt_guard (snd o)) ops && ecfg_guard e
+      && match thr with Some t => small_dyadic t | None => true end
+  | KG _ _ => false
   end.
 
 (* ---------- known-finding classes ---------- *)
@@ -205,8 +359,6 @@ Fixpoint has_sat_duration (x : cval) : bool :=
 Definition opt_sat (x : option cval) : bool := match x with Some a => has_sat_duration a | None => false end.
 Definition is_dur (c : vcfg) : bool := match c with VDur _ => true | _ => false end.
 
-(* class 3: Collection.Pull compares old and new of each change, so a tolerance drifts: a collection
-   stream whose delivered values differ from "delivered iff not equivalent to the last delivered" *)
 (* class 1: a configuration containing DurationValueWithinP (a ratio test: neither reflexive nor
    symmetric); class 2: DurationValueWithin on a pair holding a Duration beyond +-292 years *)
 Definition obs_class (x y : option cval) (o : obs) : option Z :=
@@ -218,7 +370,7 @@ Definition obs_class (x y : option cval) (o : obs) : option Z :=
   | OComb _ _ _ _ => None
   end.
 
-Definition case_class (c : c16case) : option Z :=
+Definition class_core (c : c16case) : option Z :=
   match c with
   | KPair x y _ ps os =>
       match filter (fun o => negb (ok_obs x y ps o)) os with
@@ -229,9 +381,17 @@ Definition case_class (c : c16case) : option Z :=
           | None => None
           end
       end
-  | KStream _ _ _ _ => None
-  | KCollStream _ _ _ _ => Some 3
+  | _ => None
   end.
+
+(* ---------- the guard computed by the generator must be the judge's ---------- *)
+Fixpoint unwrap (c : c16case) : c16case := match c with KG _ c' => unwrap c' | _ => c end.
+Definition C16_guard (c : c16case) : bool := guard_core (unwrap c).
+Fixpoint kg_ok (c : c16case) : bool :=
+  match c with KG g c' => Bool.eqb g (guard_core (unwrap c')) && kg_ok c' | _ => true end.
+Definition agrees (c : c16case) : bool := kg_ok c && agrees_core (unwrap c).
+Definition C16_ok (c : c16case) : bool := ok_core (unwrap c).
+Definition case_class (c : c16case) : option Z := class_core (unwrap c).
 
 Definition judge (c : c16case) : Z :=
   verdict (agrees c) (if C16_guard c then C16_ok c else true) (case_class c).
